@@ -125,16 +125,18 @@ func (n *c08Node) SubmitSyncCommitteeContributions(ctx context.Context, a []*alt
 }
 
 const (
-	lhPrefix   = "POST failed with status 400: "
-	lhDupMsg   = `{"code":400,"message":"BAD_REQUEST: error processing sync committee messages","failures":[{"index":0,"message":"Verification: PriorSyncCommitteeMessageKnown { validator_index: 1, slot: 2 }"}]}`
-	lhRealMsg  = `{"code":400,"message":"BAD_REQUEST: error processing sync committee messages","failures":[{"index":0,"message":"Verification: PriorSyncCommitteeMessageKnown { validator_index: 1, slot: 2 }"},{"index":1,"message":"Verification: InvalidSignature"}]}`
-	lhNoFail   = `{"code":400,"message":"BAD_REQUEST: body deserialize error"}`
-	lhNullFail = `{"code":400,"message":"BAD_REQUEST: error","failures":[null]}`
-	tekuDupMsg = `{"code":"400","message":"Some items failed to publish, refer to errors for details","failures":[{"index":"0","message":"Ignoring sync committee message as a duplicate was processed during validation"}]}`
-	tekuReal   = `{"code":"400","message":"Some items failed","failures":[{"index":"0","message":"Rejecting sync committee message because the signature is invalid"}]}`
-	tekuNoFail = `{"code":"400","message":"Bad request"}`
-	lhAggKnown = `{"code":400,"message":"BAD_REQUEST: error processing contribution and proofs","failures":[{"index":0,"message":"Verification: AggregatorAlreadyKnown(5)"}]}`
-	lhAggReal  = `{"code":400,"message":"BAD_REQUEST: error processing contribution and proofs","failures":[{"index":0,"message":"Verification: InvalidSignature"}]}`
+	lhPrefix      = "POST failed with status 400: "
+	lhDupMsg      = `{"code":400,"message":"BAD_REQUEST: error processing sync committee messages","failures":[{"index":0,"message":"Verification: PriorSyncCommitteeMessageKnown { validator_index: 1, slot: 2 }"}]}`
+	lhRealMsg     = `{"code":400,"message":"BAD_REQUEST: error processing sync committee messages","failures":[{"index":0,"message":"Verification: PriorSyncCommitteeMessageKnown { validator_index: 1, slot: 2 }"},{"index":1,"message":"Verification: InvalidSignature"}]}`
+	lhRealFirst   = `{"code":400,"message":"BAD_REQUEST: error processing sync committee messages","failures":[{"index":0,"message":"Verification: InvalidSignature"},{"index":1,"message":"Verification: PriorSyncCommitteeMessageKnown { validator_index: 1, slot: 2 }"}]}`
+	tekuRealFirst = `{"code":"400","message":"Some items failed","failures":[{"index":"0","message":"Rejecting sync committee message because the signature is invalid"},{"index":"1","message":"Ignoring sync committee message as a duplicate was processed during validation"}]}`
+	lhNoFail      = `{"code":400,"message":"BAD_REQUEST: body deserialize error"}`
+	lhNullFail    = `{"code":400,"message":"BAD_REQUEST: error","failures":[null]}`
+	tekuDupMsg    = `{"code":"400","message":"Some items failed to publish, refer to errors for details","failures":[{"index":"0","message":"Ignoring sync committee message as a duplicate was processed during validation"}]}`
+	tekuReal      = `{"code":"400","message":"Some items failed","failures":[{"index":"0","message":"Rejecting sync committee message because the signature is invalid"}]}`
+	tekuNoFail    = `{"code":"400","message":"Bad request"}`
+	lhAggKnown    = `{"code":400,"message":"BAD_REQUEST: error processing contribution and proofs","failures":[{"index":0,"message":"Verification: AggregatorAlreadyKnown(5)"}]}`
+	lhAggReal     = `{"code":400,"message":"BAD_REQUEST: error processing contribution and proofs","failures":[{"index":0,"message":"Verification: InvalidSignature"}]}`
 )
 
 type c08Kind struct {
@@ -206,6 +208,8 @@ func c08Kinds() []c08Kind {
 	msgs := append(append([]c08Beh{}, c08Basic...),
 		c08Beh{name: "lh-alldup", client: "Lighthouse", errText: lhPrefix + lhDupMsg, tolerated: true},
 		c08Beh{name: "lh-onereal", client: "Lighthouse", errText: lhPrefix + lhRealMsg},
+		c08Beh{name: "lh-realfirst", client: "Lighthouse", errText: lhPrefix + lhRealFirst},
+		c08Beh{name: "teku-realfirst", client: "teku", errText: lhPrefix + tekuRealFirst},
 		c08Beh{name: "lh-nofailures", client: "Lighthouse", errText: lhPrefix + lhNoFail},
 		c08Beh{name: "lh-nullfailure", client: "Lighthouse", errText: lhPrefix + lhNullFail},
 		c08Beh{name: "lh-notjson", client: "Lighthouse", errText: "dial tcp: connect {refused"},
@@ -734,7 +738,7 @@ func init() {
 	hx.Register(&hx.Prop{
 		ID:    "C08",
 		Title: "A submission reaches every configured node and succeeds iff one accepts",
-		Rule: "for each of the 8 submission kinds of the multinode submitter and n = 1..2 (thorough 3) scripted nodes: every assignment of behaviour (accept, reject, each client-specific tolerated rejection, error JSON with one real failure / without failure list / with a null failure / non-JSON) x latency (0, <timeout, =timeout, >timeout, hang) per node x payload size {1,3} x process concurrency {1,2,4} x later nodes configured for every kind / for this kind only, explored with deviation-bounded schedules (bound 0-1); plus, for the kinds with tolerated rejections, every history of 2 (thorough 3) submissions through one service instance to a node whose version endpoint is up or down and which accepts, rejects tolerably or rejects; plus, per kind, three submissions in a row through one service to a hanging and a healthy node; plus the immediate submitter per kind and util.Scatter for all (items<=24, concurrency<=6); " +
+		Rule: "for each of the 8 submission kinds of the multinode submitter and n = 1..2 (thorough 3) scripted nodes: every assignment of behaviour (accept, reject, each client-specific tolerated rejection, error JSON with one real failure (after or before a tolerated one) / without failure list / with a null failure / non-JSON) x latency (0, <timeout, =timeout, >timeout, hang) per node x payload size {1,3} x process concurrency {1,2,4} x later nodes configured for every kind / for this kind only, explored with deviation-bounded schedules (bound 0-1); plus, for the kinds with tolerated rejections, every history of 2 (thorough 3) submissions through one service instance to a node whose version endpoint is up or down and which accepts, rejects tolerably or rejects; plus, per kind, three submissions in a row through one service to a hanging and a healthy node; plus the immediate submitter per kind and util.Scatter for all (items<=24, concurrency<=6); " +
 			"non-trivial = more than one node or a contended scheduling point; distinct = distinct (result, return second) outcomes",
 		Assumptions: []string{
 			"the set of rejections vouch deliberately tolerates is the one in the code's client/kind table (lighthouse known/behind, nimbus unknown target, lighthouse/teku all-duplicate failures)",
